@@ -54,9 +54,14 @@ type op14 struct {
 
 var ops14 = []op14{
 	{"buf0", 'b', 0, 0}, {"buf1", 'b', 1, 0}, {"buf3", 'b', 3, 0}, {"buf70", 'b', 70, 0},
+	{"bufFill", 'b', -1, 0}, // appends exactly as many bytes as the buffer has room for (len == cap afterwards)
 	{"write0", 'w', 0, 0}, {"write1", 'w', 1, 0}, {"write5", 'w', 5, 0},
 	{"flush", 'f', 0, -1}, {"flush-fail@0", 'f', 0, 0}, {"flush-fail@1", 'f', 0, 1}, {"flush-fail@4", 'f', 0, 4}, {"flush-short", 'f', 0, -2},
 }
+
+// caps14: initial capacities of the internal buffer (none, small, and two of the sizes the
+// client and typical callers start with).
+var caps14 = []int{0, 64, 1024, 4096}
 
 // writerFingerprint reads the private state of proto.Writer (for state counting only).
 func writerFingerprint(w *proto.Writer, pending []byte) uint64 {
@@ -72,12 +77,12 @@ func writerFingerprint(w *proto.Writer, pending []byte) uint64 {
 	for i := 0; i < vec.Len(); i++ {
 		lens = append(lens, vec.Index(i).Len())
 	}
-	return vk.Hash(len(buf.Buf), cap(buf.Buf) > 64, off, fmt.Sprint(lens), pending)
+	return vk.Hash(len(buf.Buf), cap(buf.Buf) > 64, cap(buf.Buf) == len(buf.Buf), off, fmt.Sprint(lens), pending)
 }
 
 // C14 — the vectored writer emits exactly what was chained, once, in order.
 func C14(c *vk.Ctx) {
-	c.Rule("explicit-state search over all operation sequences of length <= n (quick 6, thorough 7) over the 12-operation alphabet {ChainBuffer appending 0/1/3/70 bytes, ChainWrite of a 0/1/5-byte slice, Flush to a writer that accepts everything / fails after 0, 1, 4 bytes / reports a short write} x initial buffer capacity {0, 64}; every byte is position-unique; reference model = the byte string pending since the last flush; after every Flush the bytes delivered must be exactly pending (a prefix of it when the writer failed) and nothing delivered earlier may appear again. Plus path equivalence WriteBlock+Flush = EncodeBlock on a column corpus (fifteen columns incl. containers with rows whose LowCardinality / JSON element column is empty, strings of 1 KiB / 4 KiB / 70 KB followed by rows of other lengths, bare, in an array and as dictionary values, and the stateful LowCardinality / Array(LowCardinality) / Map(., LowCardinality) / JSON, with 3 rows and with zero rows). states = distinct private writer states (reflect fingerprint incl. buffer length, offset, vector shape); transitions = operations executed.")
+	c.Rule("explicit-state search over all operation sequences of length <= n (quick 6, thorough 7) over the 13-operation alphabet {ChainBuffer appending 0/1/3/70 bytes or exactly the free capacity (buffer full at the next cut), ChainWrite of a 0/1/5-byte slice, Flush to a writer that accepts everything / fails after 0, 1, 4 bytes / reports a short write} x initial buffer capacity {0, 64, 1024, 4096}; every byte is position-unique; reference model = the byte string pending since the last flush; after every Flush the bytes delivered must be exactly pending (a prefix of it when the writer failed) and nothing delivered earlier may appear again. Plus path equivalence WriteBlock+Flush = EncodeBlock on a column corpus (fifteen columns incl. containers with rows whose LowCardinality / JSON element column is empty, strings of 1 KiB / 4 KiB / 70 KB followed by rows of other lengths, bare, in an array and as dictionary values, and the stateful LowCardinality / Array(LowCardinality) / Map(., LowCardinality) / JSON, with 3 rows and with zero rows). states = distinct private writer states (reflect fingerprint incl. buffer length, offset, vector shape); transitions = operations executed.")
 	depth := 6
 	if !c.Quick() {
 		depth = 7
@@ -86,8 +91,17 @@ func C14(c *vk.Ctx) {
 	var transitions, seqs int64
 	seq := make([]int, 0, depth)
 	var run func()
+	var checkCap func(capa int)
 	check := func() {
-		for _, capa := range []int{0, 64} {
+		for _, capa := range caps14 {
+			if msg, fn := vk.Recover(func() { checkCap(capa) }); msg != "" {
+				c.Violation("C14/panic/"+fn, fmt.Sprintf("cap=%d/%v", capa, names14(seq)), msg, nil)
+			}
+		}
+		seqs++
+	}
+	checkCap = func(capa int) {
+		{
 			sink := &sink14{failAt: -1}
 			w := proto.NewWriter(sink, &proto.Buffer{Buf: make([]byte, 0, capa)})
 			var pending []byte
@@ -109,8 +123,15 @@ func C14(c *vk.Ctx) {
 				transitions++
 				switch o.kind {
 				case 'b':
-					data := fresh(o.n)
-					w.ChainBuffer(func(b *proto.Buffer) { b.PutRaw(data) })
+					var data []byte
+					w.ChainBuffer(func(b *proto.Buffer) {
+						k := o.n
+						if k < 0 {
+							k = cap(b.Buf) - len(b.Buf)
+						}
+						data = fresh(k)
+						b.PutRaw(data)
+					})
 					pending = append(pending, data...)
 				case 'w':
 					data := fresh(o.n)
@@ -147,7 +168,6 @@ func C14(c *vk.Ctx) {
 			}
 			_ = delivered
 		}
-		seqs++
 	}
 	n := int64(0)
 	run = func() {
@@ -180,9 +200,9 @@ func C14(c *vk.Ctx) {
 		}
 		check()
 	}
-	c.Eval("operation sequences", seqs*2)
-	c.DistinctN(seqs * 2)
-	c.AddStates(int64(len(states)), transitions, seqs*2)
+	c.Eval("operation sequences", seqs*int64(len(caps14)))
+	c.DistinctN(seqs * int64(len(caps14)))
+	c.AddStates(int64(len(states)), transitions, seqs*int64(len(caps14)))
 
 	// path equivalence on a small hand-made corpus (the full column registry runs under C01)
 	if c.Shard == 0 {
